@@ -847,6 +847,7 @@ func ruleOPT6(c *Ctx) {
 			continue
 		}
 		ok := false
+		unwrapped := false
 		for _, b := range fn.Blocks {
 			for _, in := range b.Instrs {
 				f, base, v := fieldStore(in)
@@ -894,6 +895,10 @@ func ruleOPT6(c *Ctx) {
 					if !isK || !calleeNameIs(kc, "Kind") || !okk || k != 1 {
 						return false
 					}
+					// the kind is taken from the operand behind pointers and interfaces, like every other operator does
+					if uw, isCall := unspill(kc.Call.Args[0]).(*ssa.Call); isCall && strings.HasSuffix(calleeName(uw), "GetValueElem") {
+						unwrapped = true
+					}
 					return (bo.Op == token.EQL && si == 0) || (bo.Op == token.NEQ && si == 1)
 				})
 				if underNeg && underBool {
@@ -902,6 +907,7 @@ func ruleOPT6(c *Ctx) {
 			}
 		}
 		c.Check(ok, typ+".Evaluate / negates exactly when Negated and the value is a bool", p.Pos(fn.Pos()), "Value = !Value.Bool() under Negated && Kind()==Bool", "negation is applied without the flag, without the kind test, or not at all")
+		c.Check(ok && unwrapped, typ+".Evaluate / negation looks at the operand behind pointers and interfaces", p.Pos(fn.Pos()), "kind test on pkg.GetValueElem(value)", "the kind test of `!` is made on the raw value: for a *bool field or a bool held in an interface the negation is skipped with a warning, so `!F.PB && true` equals `F.PB && true` (&&, || and the comparisons do unwrap their operands)")
 	}
 }
 
